@@ -119,3 +119,77 @@ func (e *Expr) Mentions(names ...string) bool {
 	})
 	return found
 }
+
+// ShadowClasses reports how a program redeclares names that are visible from an
+// enclosing function (arguments of the top-level function, outer lets, funcs and
+// parameters): legal shadowing, as opposed to the redeclaration inside one function
+// body that the compiler rejects.
+func ShadowClasses(body *Expr, args []string) map[string]bool {
+	out := map[string]bool{}
+	type set = map[string]bool
+	with := func(s set, names ...string) set {
+		n := set{}
+		for k := range s {
+			n[k] = true
+		}
+		for _, k := range names {
+			n[k] = true
+		}
+		return n
+	}
+	var walk func(e *Expr, outer, frame, redeclared set)
+	fn := func(params []string, fbody *Expr, outer, frame set, self string) {
+		o := with(outer)
+		for k := range frame {
+			o[k] = true
+		}
+		if self != "" {
+			o[self] = true
+		}
+		for _, p := range params {
+			if o[p] {
+				out["parameter_shadows_a_name_of_an_enclosing_function"] = true
+			}
+		}
+		walk(fbody, o, with(set{}, params...), set{})
+	}
+	walk = func(e *Expr, outer, frame, redeclared set) {
+		if e == nil {
+			return
+		}
+		switch e.K {
+		case KLet:
+			walk(e.X[0], outer, frame, redeclared)
+			rd := redeclared
+			if outer[e.S] && !frame[e.S] {
+				out["let_redeclares_a_name_of_an_enclosing_function"] = true
+				if e.X[0].Mentions(e.S) {
+					out["let_value_reads_the_outer_name_it_redeclares"] = true
+				}
+				rd = with(redeclared, e.S)
+			}
+			walk(e.X[1], outer, with(frame, e.S), rd)
+		case KFunc:
+			rd := redeclared
+			if outer[e.S] && !frame[e.S] {
+				out["func_redeclares_a_name_of_an_enclosing_function"] = true
+				rd = with(redeclared, e.S)
+			}
+			fn(e.Names, e.X[0], outer, frame, e.S)
+			walk(e.X[1], outer, with(frame, e.S), rd)
+		case KLam:
+			for n := range redeclared {
+				if e.X[0].Mentions(n) {
+					out["closure_captures_a_redeclared_name"] = true
+				}
+			}
+			fn(e.Names, e.X[0], outer, frame, "")
+		default:
+			for _, x := range e.X {
+				walk(x, outer, frame, redeclared)
+			}
+		}
+	}
+	walk(body, set{}, with(set{}, args...), set{})
+	return out
+}
